@@ -76,7 +76,18 @@ class ClientBuilder:
         self.nid = 1
 
     def op(self, **kw):
+        # the way a link dies / an attempt fails: every OSError family a TCP stack reports
+        if kw.get("op") in ("peer_reset", "arm_fault"):
+            kw.setdefault("exc", self._xrng().choice(["reset", "reset", "timeout", "unreach", "netdown", "pipe"]))
+        elif kw.get("op") in ("resolve", "resolve_all") and kw.get("how") == "refuse":
+            kw.setdefault("exc", self._xrng().choice(["refused", "refused", "timeout", "unreach"]))
         self.script.append(kw)
+
+    def _xrng(self):
+        if not hasattr(self, "_xr"):
+            import random as _r
+            self._xr = _r.Random(len(self.script) * 7919 + self.nid)
+        return self._xr
 
     def call(self, target, method, args=None, kwargs=None):
         cid = self.nid
